@@ -167,3 +167,22 @@ REGISTRY.update({
         "note": _NOTE + "User-fixed parameters are those given to the constructor; set_params between fits is not generated.",
     },
 })
+
+REGISTRY.update({
+    "C19": {
+        "level": "Model-based call histories over a pool of shared inputs: 19 diagram entry points and the two mGH call styles are invoked in generated "
+                 "order; every pooled argument is compared byte-for-byte with a snapshot after every call, earlier calls are re-issued after arbitrary "
+                 "other calls and must give bit-identical results (mGH under the same NumPy seed), and every call is repeated on equal-valued inputs in "
+                 "each other accepted form (float array / integer array / nested list).",
+        "technique": "model-based / stateful property testing (generated call histories; snapshot invariant after every step; repeat and representation-swap rules)",
+        "note": _NOTE + "Coverage of 'every public entry point' is the table in pv/props/c19.py; the slow 3-D plot_landscape is not included.",
+    },
+    "C20": {
+        "level": "Artists are read back from Agg figures for generated diagrams, option combinations and target axes (current or explicitly not current): "
+                 "scatter offsets vs float32 data, infinity line placement, limits, labels, title, legend; for matching plots the multiset of segments on "
+                 "the given axes vs the rows of the matching returned by the distance function, nothing on other axes, distinct style of the bottleneck "
+                 "row; 2-D landscape plots line by line.",
+        "technique": "property-based testing (Hypothesis) with artist inspection of rendered figures (explicit expected-artist oracle)",
+        "note": _NOTE + "Diagrams whose extent is below float32 resolution are excluded; the 3-D plot_landscape is not inspected.",
+    },
+})
